@@ -5,6 +5,18 @@ use crate::script::*;
 use crate::Family;
 
 pub fn families_for(prop: &str) -> Vec<Family> {
+    if prop == "C01" {
+        // every scenario family the harness has, plus the filesystem / io_uring one; each with fault knobs
+        let mut v = vec![Family { name: "c01_fs", cfg: c01_fs_cfg, run: c01_fs_run }];
+        v.push(Family { name: "c01_mix", cfg: c01_mix_cfg, run: mix_run });
+        v.push(Family { name: "c01_udp", cfg: c01_udp_cfg, run: c09_run });
+        v.push(Family { name: "c01_tcp", cfg: c01_tcp_cfg, run: c02_rand_run });
+        v.push(Family { name: "c01_conn", cfg: c01_conn_cfg, run: c12_run });
+        v.push(Family { name: "c01_part", cfg: c03_rand_cfg, run: c03_rand_run });
+        v.push(Family { name: "c01_crash", cfg: c04_cfg, run: c04_run });
+        v.push(Family { name: "c01_clock", cfg: c05_cfg, run: c05_run });
+        return v;
+    }
     match prop {
         "MIX" => vec![Family { name: "mix", cfg: mix_cfg, run: mix_run }],
         "C08" => vec![
@@ -1421,4 +1433,86 @@ fn c04_run(case: &mut Case, rng: &mut Rng) {
         case.ctl("step");
     }
     case.ctl("mark done");
+}
+
+// ---------------------------------------------------------------------------------------------
+// C01: determinism — the existing families under every fault knob, plus fs / io_uring activity
+
+fn knobs(mut c: CaseCfg, rng: &mut Rng) -> CaseCfg {
+    c.fail = *rng.pick(&[0.0, 0.0, 0.2, 0.6]);
+    c.repair = *rng.pick(&[1.0, 0.5, 0.1]);
+    c.random_order = rng.chance(1, 2);
+    c.fs_sync_pct = *rng.pick(&[0u64, 0, 30, 70]);
+    c.fs_block = *rng.pick(&[0u64, 0, 2, 3]);
+    if c.maxlat_ms == c.minlat_ms {
+        c.maxlat_ms += *rng.pick(&[0u64, 5, 20]);
+    }
+    c
+}
+
+fn c01_mix_cfg(rng: &mut Rng) -> CaseCfg { let c = mix_cfg(rng); knobs(c, rng) }
+fn c01_udp_cfg(rng: &mut Rng) -> CaseCfg { let c = c09_cfg(rng); knobs(c, rng) }
+fn c01_tcp_cfg(rng: &mut Rng) -> CaseCfg { let c = c02_cfg(rng); knobs(c, rng) }
+fn c01_conn_cfg(rng: &mut Rng) -> CaseCfg { let c = c12_cfg(rng); knobs(c, rng) }
+
+fn c01_fs_cfg(rng: &mut Rng) -> CaseCfg {
+    let c = CaseCfg { hosts: rng.range(1, 3) as usize, rng_seed: rng.next(), tick_ms: *rng.pick(&[1u64, 2, 5]), ..CaseCfg::default() };
+    knobs(c, rng)
+}
+
+fn c01_fs_run(case: &mut Case, rng: &mut Rng) {
+    let hosts = case.cfg.hosts;
+    let names = ["alpha", "b", "c7", "delta", "e", "file-10", "file-2", "g", "zz", "m", "n0", "x"];
+    let rounds = rng.range(4, 14);
+    for _ in 0..rounds {
+        for h in 0..hosts {
+            if !case.running[h] {
+                continue;
+            }
+            for _ in 0..rng.range(1, 4) {
+                match rng.below(10) {
+                    0..=3 => {
+                        let n = *rng.pick(&names);
+                        let dir = *rng.pick(&["d", "d", "d/sub", "e"]);
+                        let sync = if rng.chance(1, 3) { " sync" } else { "" };
+                        case.ctl(&format!("q h{h} fs_mk {dir}/{n} {}{sync}", hex(&[rng.below(256) as u8, rng.below(256) as u8, 7])));
+                    }
+                    4 | 5 => case.ctl(&format!("q h{h} fs_ls {}", *rng.pick(&["d", "d", "e", "d/sub", ""]))),
+                    6 => case.ctl(&format!("q h{h} fs_syncdir {}", *rng.pick(&["d", "", "e"]))),
+                    7 => case.ctl(&format!("q h{h} fs_cat d/{}", *rng.pick(&names))),
+                    8 => {
+                        case.ctl(&format!("q h{h} uring_submit {}", rng.range(1, 8)));
+                        if rng.chance(1, 2) {
+                            case.ctl(&format!("q h{h} uring_drain"));
+                        }
+                    }
+                    _ => {
+                        if rng.chance(1, 4) {
+                            case.ctl(&format!("q h{h} fs_rmall {}", *rng.pick(&["d/sub", "e"])));
+                        }
+                    }
+                }
+            }
+        }
+        case.ctl("step");
+        if rng.chance(1, 6) {
+            let h = rng.below(hosts as u64) as usize;
+            case.ctl(&format!("crash h{h}"));
+            case.ctl(&format!("bounce h{h}"));
+            case.ctl(&format!("q h{h} fs_ls d"));
+            case.ctl(&format!("q h{h} fs_cat d/alpha"));
+            case.ctl("step");
+        }
+    }
+    for h in 0..hosts {
+        case.ctl(&format!("q h{h} fs_ls d"));
+        case.ctl(&format!("q h{h} fs_ls e"));
+        case.ctl(&format!("q h{h} uring_drain"));
+    }
+    case.ctl("step");
+    for h in 0..hosts {
+        case.ctl(&format!("q h{h} uring_drain"));
+    }
+    case.ctl("step");
+    case.ctl("simclock");
 }
